@@ -108,6 +108,21 @@ theorem tamper_data (t : Txn) (v : Str) (hv : v ≠ t.str .transactionData) :
   have := single_str H hH .transactionData (.hashOf .transactionData) (by decide) (by decide) t v h
   exact hv (hH (by simpa [render, Txn.setStr] using this))
 
+/-! `binds_<field>`: one name per field the property lists that IS bound, each resting on a membership fact decided
+against the GENERATED term list (inside the `tamper_*` proofs); `fee` and `type` have negation witnesses below. -/
+theorem binds_time (t : Txn) (v : Int) (hv : v ≠ t.int .creationDate) :
+    computeHash T H (t.setInt .creationDate v) ≠ computeHash T H t := tamper_creationDate H hH t v hv
+theorem binds_nonce (t : Txn) (v : Int) (hv : v ≠ t.int .nonce) :
+    computeHash T H (t.setInt .nonce v) ≠ computeHash T H t := tamper_nonce H hH t v hv
+theorem binds_sender (t : Txn) (v : Str) (hv : v ≠ t.str .clientID) :
+    computeHash T H (t.setStr .clientID v) ≠ computeHash T H t := tamper_clientID H hH t v hv
+theorem binds_recipient (t : Txn) (v : Str) (hv : v ≠ t.str .toClientID) :
+    computeHash T H (t.setStr .toClientID v) ≠ computeHash T H t := tamper_toClientID H hH t v hv
+theorem binds_value (t : Txn) (v : Int) (h0 : 0 ≤ t.int .value) (h1 : 0 ≤ v) (hv : v ≠ t.int .value) :
+    computeHash T H (t.setInt .value v) ≠ computeHash T H t := tamper_value H hH t v h0 h1 hv
+theorem binds_data (t : Txn) (v : Str) (hv : v ≠ t.str .transactionData) :
+    computeHash T H (t.setStr .transactionData v) ≠ computeHash T H t := tamper_data H hH t v hv
+
 end tamper
 
 /-! ## what acceptance establishes -/
@@ -193,6 +208,24 @@ theorem cacheOK_verifySignature (H : Str → Str) (env : Env) (t : Txn) (hc : Ca
         rcases List.mem_cons.mp he with rfl | he
         · exact ⟨b, hb, rfl⟩
         · exact hc e he
+
+/-- … so every cache reachable from the empty one by validations is well-formed (`CacheOK` of `accept_only_if`) -/
+theorem cacheOK_after (H : Str → Str) (env : Env) (now : Int) (vs : Bool) (t : Txn) (hc : CacheOK H env.cache) :
+    CacheOK H (cacheAfter T H env now vs t) ∧ CacheOK H (acceptCache T H env now vs t) := by
+  have h1 : ∀ t : Txn, CacheOK H (cacheAfter T H env now vs t) := by
+    intro t
+    unfold cacheAfter
+    simp only
+    split
+    · exact cacheOK_verifySignature H env t hc
+    · exact hc
+  refine ⟨h1 t, ?_⟩
+  unfold acceptCache
+  split
+  · exact hc
+  · exact h1 _
+
+theorem cacheOK_empty (H : Str → Str) : CacheOK H [] := by intro e he; cases he
 
 /-- **accept_only_if** — the first sentence of C30: an accepted transaction (signature check requested, cache
 well-formed) has, after `ComputeProperties` filled in a missing client id / chain id:
